@@ -61,16 +61,25 @@ PROPS = {
     ),
     'C03': dict(
         level='proof',
-        units=['path:parser::PushParser::parse_program', 'path:parser::PushParser::parse_vector', 'path:parser::PushParser::rec_push', 'path:stack::PushStack::push_front', 'path:stack::PushStack::bottom_mut', 'path:stack::PushStack::push'],
+        units=['path:parser::PushParser::parse_program', 'path:parser::parse_program__token', 'path:parser::PushParser::parse_vector', 'path:parser::PushParser::rec_push', 'path:instructions::InstructionSet::is_instruction',
+               'path:stack::PushStack::push_front', 'path:stack::PushStack::bottom_mut', 'path:stack::PushStack::push'],
         explanation='for EVERY input string: parse_program / parse_vector / rec_push never panic (the depth counter cannot underflow or overflow, the three `token[k..]` slices are taken only after '
                     '`starts_with` of an ASCII prefix of k bytes, rec_push recurses on a strictly smaller depth), terminate, and change nothing but the EXEC stack (only_exec_changed); rec_push puts the item at the FRONT of the list that is open at the given depth '
                     '(relation rec_pushed: so tokens keep their left-to-right order and nesting) and fails exactly when no list is open at that depth. '
-                    'The str operations are read through the R15 wrappers (bodies = the original expressions): what split_whitespace / split / strip_suffix / parse return is uninterpreted',
-        not_decided=['tree shape (same nesting, same order, first token on top), the classification cascade and "a malformed vector literal is dropped without disturbing its neighbours": they depend on what '
-                     'split_whitespace / split / parse / strip_suffix return, which no installed verifier can reason about (Verus: no str content reasoning; Kani on parse_program with 3 symbolic bytes did not finish in 10 minutes)',
-                     'InstructionSet::is_instruction is an opaque lookup (HashMap of boxed closures)'],
-        assumptions=['R15: `s.starts_with(p)` with an ASCII literal p implies that byte offset |p| lies inside s on a character boundary (so `&s[|p|..]` cannot panic); a string in memory has fewer than 2^64 whitespace-separated tokens; '
-                     'SplitWhitespace::next consumes at least one token when it returns one (termination measure sw_remaining); `s.split(p)` is read as its collected pieces'],
+                    'PER TOKEN (the body of the token loop, outlined mechanically by R16 into parse_program__token): spec function token_effect, written from the property statement -- '
+                    'a token with prefix INT[ / FLOAT[ / BOOL[ is a vector literal: without the closing bracket, or with an element that is not of the type, the EXEC stack is unchanged (dropped, neighbours undisturbed), '
+                    'otherwise the vector whose i-th element is the value of the i-th comma-separated piece is front-pushed at the open list; "(" pushes an empty list there and opens it (depth+1); ")" closes it (depth-1, ignored at depth 0); '
+                    'any other token becomes exactly one item, classified in the documented order registered instruction / integer / float / TRUE / FALSE / name, front-pushed at the open list, depth unchanged. '
+                    'The str operations are read through the R15 wrappers (bodies = the original expressions): starts_with is the prefix relation, `&s[k..]` drops k characters after an ASCII prefix, strip_suffix removes the suffix; '
+                    'what split_whitespace yields, what split(",") yields and what parses as i32 / f32 are uninterpreted functions of the characters',
+        not_decided=['whole-tree isomorphism parse(render(t)) == t: it needs the meaning of split_whitespace over a rendered program (which substrings are the tokens), which no installed verifier can reason about '
+                     '(Verus: no str content reasoning; Kani on parse_program with 3 symbolic bytes did not finish in 10 minutes). What IS decided is the per-token step (classification, position, depth) from which the tree is built',
+                     'which strings std parses as i32 / f32 (uninterpreted)'],
+        assumptions=['R15 (std documentation of the str methods, assumed as wrapper contracts): `s.starts_with(p)` is the prefix relation and, for an ASCII literal p, byte offset |p| is character offset |p| (so `&s[|p|..]` cannot panic and drops |p| characters); '
+                     '`strip_suffix(p)` removes the suffix p if present; `split(p)` and `parse` are pure functions of the characters; a string in memory has fewer than 2^64 whitespace-separated tokens; '
+                     'SplitWhitespace::next consumes at least one token when it returns one (termination measure sw_remaining); `s.split(p)` is read as its collected pieces',
+                     'R16: the body of the token loop is verified as a function of its own (moved verbatim; `continue` -> `return`, the captured counter `depth` passed by `&mut`); tools/selftest_rewrites.sh runs the repository tests on the outlined text',
+                     'A-hash: looking a String-keyed map up with a &str (InstructionSet::is_instruction) is the vstd borrowed-key relation; A-string-ext: two &str with the same characters are the same value'],
     ),
     'C17': dict(
         level='proof',
